@@ -15,14 +15,18 @@ from ._ops import one_flag
 
 
 def mech(flags) -> str:
+    if "package_with_unresolved_imports" in flags:
+        return ":package_with_unresolved_imports"
     if "derived_local_captures_property" in flags:
         return ":derived_local_captures_property"
     return (":" + one_flag(flags)) if flags else ""
 
 
-def judge_roundtrip(vd, ev, a, res, witness_base, prop="C02", capture=None):
+def judge_roundtrip(vd, ev, a, res, witness_base, prop="C02", capture=None, pkg_defect=False):
     x = a["x"]
     flags = list(x.get("flags") or [])
+    if pkg_defect:
+        flags = ["package_with_unresolved_imports"]
     if capture:
         flags = ["derived_local_captures_property"]  # document-level trigger (C18 mechanism), see _ops.derived_local_capture
     w = dict(witness_base, cls=a["cls"], value=a["value"], label=x.get("label"), flags=flags)
@@ -32,7 +36,7 @@ def judge_roundtrip(vd, ev, a, res, witness_base, prop="C02", capture=None):
         return False
     if res.get("exc"):
         ex = res["exc"]
-        if ex["type"] == "ModuleNotFoundError":
+        if ex["type"] == "ModuleNotFoundError" and "package_with_unresolved_imports" not in flags:
             flags = []  # the cascade mechanism, whatever else the instance contains
         vd.violation(f"exception:{ex['type']}:{res['stage']}{mech(flags)}", f"{a['cls']}.{res['stage']} raised {ex['type']}: {ex['msg']} (instance label {x.get('label')})", w)
         return True
@@ -82,6 +86,10 @@ def main() -> int:
             continue
         wb = {"doc": j["doc"], "cfg": inf["cfg"], "case": inf["label"]}
         from ._ops import derived_local_capture
+        from ._ops import import_defect
+        pkg_defect = import_defect(actions_results(r))
+        if pkg_defect:
+            run.ev.count("packages_with_import_defects(C01)")
         capture = derived_local_capture(r.get("manifest") or {})
         if capture:
             run.ev.count("documents_with_derived_local_capture_trigger")
@@ -90,7 +98,7 @@ def main() -> int:
             if a["a"] != "roundtrip":
                 continue
             nrt += 1
-            bad = judge_roundtrip(run.vd, run.ev, a, res, wb, capture=capture)
+            bad = judge_roundtrip(run.vd, run.ev, a, res, wb, capture=capture, pkg_defect=pkg_defect)
             lab = (a["x"].get("label") or "").split(":")[0]
             run.ev.seen(("C02", tuple(sorted(f for f in inf["features"] if f.startswith(("kind:", "null:", "addl:", "union:")) or not f.count(":"))), lab, tuple(a["x"].get("flags") or [])))
             if not bad and lab in ("max", "branch") and inf["label"].startswith("random"):
